@@ -58,16 +58,22 @@ Record flat_fixes := {
   fx_cndeep : bool;   (* cn units renamed in all descendants (c2160f8) *)
   fx_ref    : bool;   (* dependency references follow the changed name (b6a87da) *)
   fx_chain  : bool;   (* placeholder variables survive when the imported component is itself an import (76af934) *)
-  fx_ids    : bool    (* mapping / connection ids kept: a candidate repair that is NOT in the code (it would give two
+  fx_ids    : bool;   (* mapping / connection ids kept: a candidate repair that is NOT in the code (it would give two
                          instances of one imported component the same ids) *)
+  fx_cycle_guard : bool (* 85ba0d4: hasUnitsCycle() is consulted first by Units::equivalent (via isDefined / scalingFactor) and by
+                           hasUnitsImports: units with a cyclic definition are "not equivalent" / their references are not followed.
+                           false: the reducers recurse until the stack is exhausted *)
 }.
 Definition flat_all_fixed : flat_fixes :=
-  {| fx_kids := true; fx_late := true; fx_clash := true; fx_cndeep := true; fx_ref := true; fx_chain := true; fx_ids := true |}.
+  {| fx_kids := true; fx_late := true; fx_clash := true; fx_cndeep := true; fx_ref := true; fx_chain := true; fx_ids := true; fx_cycle_guard := true |}.
 Definition flat_unfixed : flat_fixes :=
-  {| fx_kids := false; fx_late := false; fx_clash := false; fx_cndeep := false; fx_ref := false; fx_chain := false; fx_ids := false |}.
+  {| fx_kids := false; fx_late := false; fx_clash := false; fx_cndeep := false; fx_ref := false; fx_chain := false; fx_ids := false; fx_cycle_guard := false |}.
 (* the state of /repo this model is compared with *)
 Definition flat_current_fixes : flat_fixes :=
-  {| fx_kids := true; fx_late := true; fx_clash := true; fx_cndeep := true; fx_ref := true; fx_chain := true; fx_ids := false |}.
+  {| fx_kids := true; fx_late := true; fx_clash := true; fx_cndeep := true; fx_ref := true; fx_chain := true; fx_ids := false; fx_cycle_guard := true |}.
+(* the code just before 85ba0d4 *)
+Definition flat_no_cycle_guard : flat_fixes :=
+  {| fx_kids := true; fx_late := true; fx_clash := true; fx_cndeep := true; fx_ref := true; fx_chain := true; fx_ids := false; fx_cycle_guard := false |}.
 
 (* ------------------------------------------------------------------------------------------ data *)
 
@@ -191,6 +197,31 @@ Definition units_equivalent (libs : list model) (ms : list (list units)) (ia : n
   : fres bool :=
   let w := mk_world ms libs in
   of_res (equivalent UnitsDefs.current_fixes (fuel_for w) w (Some (ia, na)) (Some (ib, nb))).
+
+(* Units::equivalent with 85ba0d4.  C08's model answers OutOfFuel exactly when the evaluation runs into a units cycle (its fuel
+   suffices for every acyclic world: C08_reducers_terminate); hasUnitsCycle() now makes isDefined() false for such units, hence
+   compatible() false, scalingFactor() 0.0, equivalent() false.  When C08's model answers without meeting the cycle the answer
+   is the same with and without the guard (true only after isDefined walked the whole closure). *)
+Definition units_equivalent_g (fx : flat_fixes) (libs : list model) (ms : list (list units)) (ia : nat) (na : string) (ib : nat) (nb : string)
+  : fres bool :=
+  match units_equivalent libs ms ia na ib nb with
+  | FFuel => if fx_cycle_guard fx then FOk false else FFuel
+  | r => r
+  end.
+
+(* utilities.cpp: hasUnitsCycle / unitsCycleFrom: a path longer than the number of units of the world repeats a units *)
+Fixpoint cycle_from (fuel : nat) (w : world) (mi : nat) (name : string) : bool :=
+  match fuel with
+  | O => true
+  | S f =>
+      match lookup w mi name with
+      | None => false
+      | Some (Import mj r) => cycle_from f w mj r
+      | Some (Defs l) => existsb (fun c => negb (is_std_name (uc_ref c)) && cycle_from f w mi (uc_ref c)) l
+      end
+  end.
+Definition has_units_cycle (libs : list model) (U : list units) (name : string) : bool :=
+  let w := mk_world [U] libs in cycle_from (fuel_for w) w 0 name.
 
 (* ------------------------------------------------------------------------------------------ math *)
 
@@ -625,22 +656,22 @@ Fixpoint units_used (fuel : nat) (U : list units) (c : comp) : fres (list string
   end.
 
 (* flattenComponent: uniqueRequiredUnits / aliasedUnitsNames *)
-Fixpoint first_equivalent (libs : list model) (U : list units) (n : string) (uniq : list string) : fres (option string) :=
+Fixpoint first_equivalent (fx : flat_fixes) (libs : list model) (U : list units) (n : string) (uniq : list string) : fres (option string) :=
   match uniq with
   | [] => FOk None
-  | m :: r => do b <- units_equivalent libs [U] 0 m 0 n;
-              if b then FOk (Some m) else first_equivalent libs U n r
+  | m :: r => do b <- units_equivalent_g fx libs [U] 0 m 0 n;
+              if b then FOk (Some m) else first_equivalent fx libs U n r
   end.
 
-Fixpoint unique_required (libs : list model) (U : list units) (req uniq : list string) (alias : list (string * string))
+Fixpoint unique_required (fx : flat_fixes) (libs : list model) (U : list units) (req uniq : list string) (alias : list (string * string))
   : fres (list string * list (string * string)) :=
   match req with
   | [] => FOk (uniq, alias)
   | n :: r =>
-      do found <- first_equivalent libs U n uniq;
+      do found <- first_equivalent fx libs U n uniq;
       match found with
-      | None => unique_required libs U r (uniq ++ [n]) alias
-      | Some m => unique_required libs U r uniq (if String.eqb m n then alias else smap_emplace n m alias)
+      | None => unique_required fx libs U r (uniq ++ [n]) alias
+      | Some m => unique_required fx libs U r uniq (if String.eqb m n then alias else smap_emplace n m alias)
       end
   end.
 
@@ -666,11 +697,11 @@ Definition us_op (old new : string) (s : ust) : ust :=
   else s.
 
 (* importer.cpp: modelsEquivalentUnits(targetModel, units): units = the units named n of `home` *)
-Fixpoint models_equivalent_units (libs : list model) (T home : list units) (n : string) (l : list units) : fres (option string) :=
+Fixpoint models_equivalent_units (fx : flat_fixes) (libs : list model) (T home : list units) (n : string) (l : list units) : fres (option string) :=
   match l with
   | [] => FOk None
-  | t :: r => do b <- units_equivalent libs [T; home] 0 (u_name t) 1 n;
-              if b then FOk (Some (u_name t)) else models_equivalent_units libs T home n r
+  | t :: r => do b <- units_equivalent_g fx libs [T; home] 0 (u_name t) 1 n;
+              if b then FOk (Some (u_name t)) else models_equivalent_units fx libs T home n r
   end.
 
 (* newName = originalName + "_" + convertToString(++count) until the name is free *)
@@ -730,7 +761,7 @@ Fixpoint transfer (fuel : nat) (fx : flat_fixes) (libs : list model) (orphan : b
   | O => FFuel
   | S f =>
       let home := transfer_home orphan u s in
-      do target <- models_equivalent_units libs (us_T s) home (transfer_qname orphan u) (us_T s);
+      do target <- models_equivalent_units fx libs (us_T s) home (transfer_qname orphan u) (us_T s);
       match target with
       | None =>
           do r <- transfer_kids (transfer f fx libs true) fx (List.length (u_defs u)) 0 u s;
@@ -1059,7 +1090,7 @@ Definition flatten_component (fuel : nat) (fx : flat_fixes) (libs : list model) 
                       let early := if fx_late fx then [] else pk in
                       let copy2 := c_set_kids (c_kids copy1 ++ early) copy1 in
                       do required <- units_used fuel cim copy2;
-                      do ua <- unique_required libs cim required [] [];
+                      do ua <- unique_required fx libs cim required [] [];
                       let '(uniq, alias) := ua in
                       (* component names *)
                       do dn <- declash fx compNames (c_kids copy1) pk;
@@ -1115,8 +1146,8 @@ Fixpoint flatten_component_imports (fuel : nat) (fx : flat_fixes) (libs : list m
 
 (* ------------------------------------------------------------------------------------------ Model::hasImports *)
 
-(* model.cpp: hasUnitsImports *)
-Fixpoint has_units_imports (fuel : nat) (U : list units) (u : units) : fres bool :=
+(* model.cpp: hasUnitsImports: since 85ba0d4 the references of a units with a cyclic definition are not followed *)
+Fixpoint has_units_imports_go (fuel : nat) (U : list units) (u : units) : fres bool :=
   match fuel with
   | O => FFuel
   | S f =>
@@ -1128,12 +1159,16 @@ Fixpoint has_units_imports (fuel : nat) (U : list units) (u : units) : fres bool
                        if (b : bool) then FOk true
                        else if negb (str_is_empty (uc_ref d)) && negb (is_std_name (uc_ref d))
                             then match find_units (uc_ref d) U with
-                                 | Some r => has_units_imports f U r
+                                 | Some r => has_units_imports_go f U r
                                  | None => FOk false
                                  end
                             else FOk false) (u_defs u) (FOk false)
       end
   end.
+Definition has_units_imports (fx : flat_fixes) (libs : list model) (fuel : nat) (U : list units) (u : units) : fres bool :=
+  if fx_cycle_guard fx && has_units_cycle libs U (u_name u)
+  then FOk (match u_imp u with Some _ => true | None => false end)
+  else has_units_imports_go fuel U u.
 
 (* model.cpp: hasComponentImports *)
 Fixpoint comp_has_imports (c : comp) : bool :=
@@ -1141,8 +1176,8 @@ Fixpoint comp_has_imports (c : comp) : bool :=
   | Comp _ _ im _ _ kids => match im with Some _ => true | None => existsb comp_has_imports kids end
   end.
 
-Definition has_imports (fuel : nat) (fs : fstate) : fres bool :=
-  do b <- fold_left (fun (acc : fres bool) u => do b <- acc; if (b : bool) then FOk true else has_units_imports fuel (f_units fs) u)
+Definition has_imports (fx : flat_fixes) (libs : list model) (fuel : nat) (fs : fstate) : fres bool :=
+  do b <- fold_left (fun (acc : fres bool) u => do b <- acc; if (b : bool) then FOk true else has_units_imports fx libs fuel (f_units fs) u)
                     (f_units fs) (FOk false);
   if b then FOk true else FOk (existsb comp_has_imports (f_comps fs)).
 
@@ -1178,7 +1213,7 @@ Fixpoint flatten_loop (rounds fuel : nat) (fx : flat_fixes) (libs : list model) 
   match rounds with
   | O => FFuel
   | S r =>
-      do b <- has_imports fuel fs;
+      do b <- has_imports fx libs fuel fs;
       if b
       then do fs1 <- top_units_loop fuel fx libs 0 fs;
            do fs2 <- top_comps_loop fuel fx libs (List.length (f_comps fs1)) 0 fs1;
